@@ -4,6 +4,9 @@ import typing as t
 from enum import IntEnum, auto
 
 from sqlglot.errors import TokenError
+from sqlglot import _verif
+
+_VERIF = _verif.ENABLED
 
 # dict lookup is faster than .upper() and .isdigit()
 _CHAR_UPPER: dict[str, str] = {chr(i): chr(i).upper() for i in range(97, 123)}
@@ -721,6 +724,8 @@ class TokenizerCore:
         return self.sql[start:end] if end <= self.size else ""
 
     def _advance(self, i: int = 1, alnum: bool = False) -> None:
+        if _VERIF:
+            _verif.step("t")
         char = self._char
 
         if char == "\n" or char == "\r":
